@@ -63,6 +63,9 @@ type ReportCase struct {
 	// Nested: spok is started in <project>/docs ("plain"), which may itself hold a directory
 	// called spokfile ("decoy"); the spokfile is found by climbing
 	Nested string `json:"nested,omitempty"`
+	// JoinPair: two more variables, join("my docs", "notes") and join("my", "docs notes") — different
+	// argument lists that print alike; --vars lists each with its own value
+	JoinPair bool `json:"join_pair,omitempty"`
 }
 
 var reportNames = []string{"default", "build", "lint", "test", "zeta", "Apple", "coverage", "integrationtests"} // also lengths 8 and 16: a full tab stop
@@ -79,6 +82,7 @@ func genReport(t *rapid.T) ReportCase {
 	c.ProjDir = genProjDir(t)
 	c.Invoke = genInvoke(t)
 	c.DotEnv = rapid.IntRange(0, 2).Draw(t, "dotenv") == 0
+	c.JoinPair = rapid.IntRange(0, 3).Draw(t, "join_pair") == 0
 	if c.Invoke == "" && rapid.IntRange(0, 2).Draw(t, "nested") == 0 {
 		c.Nested = rapid.SampledFrom([]string{"plain", "decoy"}).Draw(t, "nested_kind")
 	}
@@ -150,6 +154,9 @@ func (c ReportCase) source() string {
 	var b strings.Builder
 	for _, v := range c.Vars {
 		fmt.Fprintf(&b, "%s := \"%s\"\n", v[0], v[1])
+	}
+	if c.JoinPair {
+		b.WriteString("OUTDIR := join(\"my docs\", \"notes\")\nSRCDIR := join(\"my\", \"docs notes\")\n")
 	}
 	b.WriteString("\n")
 	for ti, t := range c.Tasks {
@@ -460,10 +467,15 @@ func execReport(s *ev.Shard, b *sandbox.Box, c ReportCase) *rp.Fail {
 				got[f[0]] = strings.Join(f[1:], " ")
 				count[f[0]]++
 			}
-			if len(got) != len(c.Vars) {
-				return &rp.Fail{Sig: "vars-rows", Size: size, Msg: fmt.Sprintf("%s: %d variables defined, --vars lists %d:\n%s", desc, len(c.Vars), len(got), sandbox.Strip(r.Stdout))}
+			wantVars := append([][2]string(nil), c.Vars...)
+			if c.JoinPair {
+				eff := b.EffectiveCwd(cwd)
+				wantVars = append(wantVars, [2]string{"OUTDIR", filepath.Join(eff, "my docs", "notes")}, [2]string{"SRCDIR", filepath.Join(eff, "my", "docs notes")})
 			}
-			for _, v := range c.Vars {
+			if len(got) != len(wantVars) {
+				return &rp.Fail{Sig: "vars-rows", Size: size, Msg: fmt.Sprintf("%s: %d variables defined, --vars lists %d:\n%s", desc, len(wantVars), len(got), sandbox.Strip(r.Stdout))}
+			}
+			for _, v := range wantVars {
 				if g, ok := got[v[0]]; !ok || g != v[1] || count[v[0]] != 1 {
 					return &rp.Fail{Sig: "vars-rows", Size: size, Msg: fmt.Sprintf("%s: variable %s should be listed once with value %q:\n%s", desc, v[0], v[1], sandbox.Strip(r.Stdout))}
 				}
